@@ -289,3 +289,54 @@ func (c *Ctx) withPackageHelpers(f *ssa.Function, pkgRel string, depth int) []*s
 	add(f, 0)
 	return out
 }
+
+// onlyCalledFrom: every call site of f (transitively through up to depth private helpers) lies in one of
+// the named anchor functions; f must have at least one caller and must not escape as a value.
+func (c *Ctx) onlyCalledFrom(f *ssa.Function, depth int, anchors ...string) bool {
+	callers := c.P.CallersOf(f)
+	if len(callers) == 0 {
+		return false
+	}
+	for _, cs := range callers {
+		top := cs.Fn
+		for top.Parent() != nil {
+			top = top.Parent()
+		}
+		if c.isAnchor(top, anchors...) {
+			continue
+		}
+		if depth <= 0 || top == f || !c.onlyCalledFrom(top, depth-1, anchors...) {
+			return false
+		}
+	}
+	return true
+}
+
+// ownerFn names the declared function a construct belongs to for the purpose of obligation keys: the
+// enclosing declared function, lifted (at most twice) to its caller while it is an unexported function
+// whose call sites all lie in one other declared function.
+func (c *Ctx) ownerFn(f *ssa.Function) *ssa.Function {
+	f = topFn(f)
+	for i := 0; i < 2; i++ {
+		if f.Object() == nil || f.Object().Exported() {
+			return f
+		}
+		callers := c.P.CallersOf(f)
+		if len(callers) == 0 {
+			return f
+		}
+		var only *ssa.Function
+		for _, cs := range callers {
+			t := topFn(cs.Fn)
+			if t == f || (only != nil && only != t) {
+				return f
+			}
+			only = t
+		}
+		if only == nil || c.P.OwnPkgPath(only) == "" {
+			return f
+		}
+		f = only
+	}
+	return f
+}
